@@ -103,6 +103,10 @@ def _err_class(e: BaseException) -> str:
     return type(e).__name__
 
 
+def _err_detail(e: BaseException) -> str:
+    return ":dictionary-child-of-null-struct" if "Dictionary indices invalid" in str(e) else ""
+
+
 def _cls_arg(desc: dict[str, Any]) -> dict[str, Any]:
     return {"name": desc["name"], "fields": desc["fields"]}
 
@@ -260,7 +264,7 @@ def check_instance(ctx: Any, q: Q, b: Built, jobj: Any, well_typed: bool, tags: 
     if well_typed:
         if ser_err is not None or rt_err is not None:
             e = ser_err or rt_err
-            ctx.fail(case, f"C03:roundtrip-error:{'serialize' if ser_err else 'deserialize'}:{type(e).__name__}",
+            ctx.fail(case, f"C03:roundtrip-error:{'serialize' if ser_err else 'deserialize'}:{type(e).__name__}{_err_detail(e)}",
                      f"a well-typed instance does not round-trip: {type(e).__name__}: {str(e)[:200]}")
         else:
             got = dcgen.to_j(back, strict=False)
@@ -401,7 +405,7 @@ def check_state(ctx: Any, q: Q, b: Built, jobj: Any, have: bool, union: bool) ->
         exp = dcgen.to_j(dcgen.expected(snode, obj), strict=False)
         if enc_err is not None or dec_err is not None:
             e = enc_err or dec_err
-            ctx.fail(case, f"C03:state-bytes-error:{type(e).__name__}", f"state bytes do not round-trip: {e!r}")
+            ctx.fail(case, f"C03:state-bytes-error:{type(e).__name__}{_err_detail(e)}", f"state bytes do not round-trip: {e!r}")
         else:
             if type(dec) is not scls:
                 ctx.fail(case, "C03:state-bytes-wrong-class", f"decoded a {type(dec).__name__}, sent a {scls.__name__}")
@@ -605,6 +609,16 @@ def corpus() -> list[tuple[dict[str, Any], list[Any]]]:
                      {"o": [_S("G"), [[_S("e"), {"o": [_S("Empty"), []]}], [_S("eo"), {"o": [_S("Empty"), []]}], [_S("le"), {"l": []}],
                                       [_S("x"), {"o": [_S("InnerB"), [[_S("x"), {"i": -1}]]]}], [_S("xo"), {"o": [_S("InnerC"), [[_S("x"), {"i": 0}]]]}],
                                       [_S("sc"), {"ao": [0, 0]}], [_S("so"), {"ao": [0, 3]}], [_S("ls"), {"l": []}], [_S("rb"), {"ao": [1, 3]}]]]}]))
+    # a None nested dataclass that holds an Enum, inside a struct / list / map (pyarrow fills a null struct's dictionary child with
+    # an index into an empty dictionary: full IPC validation used to reject the framework's own bytes)
+    innere = _c("InnerE", _f("c", color))
+    outer = _c("OuterE", _f("inner", {"k": "opt", "a": innere}))
+    d8 = _c("NullStruct", _f("o", outer), _f("l", {"k": "list", "a": {"k": "opt", "a": innere}}),
+            _f("m", {"k": "map", "key": {"k": "str"}, "val": {"k": "opt", "a": innere}}))
+    out.append((d8, [{"o": [_S("NullStruct"), [[_S("o"), {"o": [_S("OuterE"), [[_S("inner"), None]]]}], [_S("l"), {"l": [None]}],
+                                               [_S("m"), {"d": [[{"s": _S("a")}, None]]}]]]},
+                     {"o": [_S("NullStruct"), [[_S("o"), {"o": [_S("OuterE"), [[_S("inner"), {"o": [_S("InnerE"), [[_S("c"), {"e": _S("GREEN")}]]]}]]]}],
+                                               [_S("l"), {"l": [None, {"o": [_S("InnerE"), [[_S("c"), {"e": _S("RED")}]]]}]}], [_S("m"), {"d": []}]]]}]))
     d7 = _c("AllT", _f("t", {"k": "int"}, transient=True, default={"i": 7}))
     out.append((d7, [{"o": [_S("AllT"), [[_S("t"), {"i": 5}]]]}]))
     out.append((empty, [{"o": [_S("Empty"), []]}]))
